@@ -37,20 +37,23 @@ def engineModel (eng : String) (args : List String) : Option String :=
   | "conc" => Eng.concModel args
   | "tfid" => Eng.tfidModel args
   | "audit" => Eng.auditModel args
+  | "auditiso" => Eng.auditIsoModel args
   | "decode" => Decode.model args
   | "http" => Http.model args
   | "parse" => Parse.model args
   | _ => none
 
-def engineJudge (eng : String) (args obs : List String) : Bool :=
+/-- `prop` = the property being decided (env VERIF_PROP): some monitors belong to one property only -/
+def engineJudge (prop eng : String) (args obs : List String) : Bool :=
   match eng with
   | "tf" => Tf.judge args obs
   | "tfchain" => TfChain.judge args obs
   | "op" => Op.judge args obs
   | "body" => Body.judge args obs
-  | "eng" => Eng.judge args obs
+  | "eng" => Eng.judge args obs && (prop != "C01" || (Eng.specViolation args).isNone)
   | "engrep" => Eng.judge args obs
   | "audit" => (match Eng.auditModel args with | some m => m == " ".intercalate obs | none => !obs.contains "PANIC")
+  | "auditiso" => (match Eng.auditIsoModel args with | some m => m == " ".intercalate obs | none => !obs.contains "PANIC")
   | "auditconc" =>
     -- C19_no_interleave on the observed file: every line a whole record, none lost
     (match obs with
@@ -84,7 +87,7 @@ def handleRx (args obs : List String) : String :=
   | none => s!"X {p}"
   | some m => if m == proj then (if ok then "A" else s!"V 0 {m}") else s!"D {p} {m}"
 
-def handle (line : String) : String :=
+def handle (prop line : String) : String :=
   let toks := (line.splitOn " ").filter (· != "")
   match toks with
   | [] => "E empty"
@@ -92,22 +95,27 @@ def handle (line : String) : String :=
     let (args, obs) := splitArrow rest
     if eng == "fault" then handleFault args obs else
     if eng == "rxpf" then handleRx args obs else
-    let p := if engineJudge eng args obs then "1" else "0"
+    let p := if engineJudge prop eng args obs then "1" else "0"
     match engineModel eng args with
     | none => s!"X {p}"
     | some m =>
-      if m == " ".intercalate obs then (if p == "1" then "A" else s!"V 0 {m}")   -- agree, but the property fails of both
+      if m == " ".intercalate obs then
+        (if p == "1" then "A" else
+          -- agree, but the property fails of both; eng-family lines say why
+          let why := if eng == "eng" then (Eng.specViolation args).getD "" else ""
+          s!"V 0 {m} {why}".trimAsciiEnd.toString)
       else s!"D {p} {m}"
 
-partial def loop (hin hout : IO.FS.Stream) : IO Unit := do
+partial def loop (prop : String) (hin hout : IO.FS.Stream) : IO Unit := do
   let line ← hin.getLine
   if line.isEmpty then return ()
   let l := line.trimAscii.toString
-  hout.putStrLn (handle l)
-  loop hin hout
+  hout.putStrLn (handle prop l)
+  loop prop hin hout
 
 def main : IO Unit := do
   let hin ← IO.getStdin
   let hout ← IO.getStdout
-  loop hin hout
+  let prop := (← IO.getEnv "VERIF_PROP").getD ""
+  loop prop hin hout
   hout.flush
